@@ -22,6 +22,11 @@ import BufModel.Path
   Module names and dependency references are parsed by bufparse (library): the structured
   input carries them already split, with a validity flag.
 
+  Also here: buf.lock with its v2 `plugins:` section (`readLockFile` / `writeLockFile`), the
+  workspace targeting shared by v1 and v2 workspaces (`owners`) with the path part of
+  `buf config migrate` (`migrateWorkspace`, `migrateFile`), and `mapP` / `reparse` (an external
+  document as the reader meets it again through the strings that were written).
+
   The model describes the tree AFTER the two `fix:` commits of C16 (writer keeps a single "."
   module that has includes; a disabled check config is written back as `ignore: [<module
   dir>]`).  The pre-fix writer is kept as `writeV2Old` / `extCheckOfOld` for the recorded
@@ -646,21 +651,120 @@ def writeLock (l : BufLock) : List ExtLockDep :=
   l.deps.map fun d => ⟨d.remote, d.owner, d.repository, true, d.commit, true, d.digest,
     if l.version = .v2 then .b5 else .b4⟩
 
-/-! ### migration core (path level) -/
+/-! ### buf.lock `plugins:` (v2 files only) -/
 
-/-- Is file `f` (path relative to the directory that holds the v1/v1beta1 buf.yaml) a file of
-    the module as targeted through root `r`: inside the root, not inside any of its excludes. -/
-def inRoot (r : Root) (f : Key) : Bool :=
-  r.root.isPrefixOf f && !(r.excludes.any fun x => (r.root ++ x).isPrefixOf f)
+/-- An external `plugins:` entry of a v2 buf.lock (`externalBufLockFileDepV2`: name, commit,
+    digest).  `nameValid` = bufparse.ParseFullName accepts, `commitValid` = uuidutil.FromDashless
+    accepts, `digestValid` = bufplugin.ParseDigest accepts (there is one digest type, p1, so a
+    parsed digest always has the expected type). -/
+structure ExtLockPlugin where
+  name : Str
+  nameValid : Bool
+  commit : Str
+  commitValid : Bool
+  digest : Str
+  digestValid : Bool
+  deriving DecidableEq, Repr
 
-/-- The v2 module the migrator creates for one root of a module found at `moduleDir`
-    (relative to the destination directory): `path = moduleDir/root`, the root's excludes
-    unchanged (they are relative to the root). -/
-def migrateRoot (moduleDir : Key) (r : Root) : Root × Key := (⟨[], r.includes, r.excludes⟩, moduleDir ++ r.root)
+structure LockPlugin where
+  name : Str
+  commit : Str
+  digest : Str
+  deriving DecidableEq, Repr
 
-/-- Is workspace-relative file `f` a file of the v2 module `(root, path)`. -/
-def inV2Module (m : Root × Key) (f : Key) : Bool :=
-  m.2.isPrefixOf f && !(m.1.excludes.any fun x => (m.2 ++ x).isPrefixOf f)
+def pluginLt (a b : LockPlugin) : Bool := strLt a.name b.name
+
+def readLockPlugin (p : ExtLockPlugin) : Option LockPlugin :=
+  if p.name = [] then none
+  else if !p.nameValid then none
+  else if p.commit = [] then none
+  else if p.digest = [] then none
+  else if !p.commitValid then none
+  else if !p.digestValid then none       -- validatePluginExpectedDigestType forces the lazy digest
+  else some ⟨p.name, p.commit, p.digest⟩
+
+/-- The plugin half of `newBufLockFile`: unique by full name, sorted by full name. -/
+def readLockPlugins (ps : List ExtLockPlugin) : Option (List LockPlugin) :=
+  match ps.mapM readLockPlugin with
+  | none => none
+  | some pl => if !uniqueNonEmpty (pl.map (·.name)) then none else some (sortU pluginLt pl)
+
+def writeLockPlugins (pl : List LockPlugin) : List ExtLockPlugin :=
+  pl.map fun p => ⟨p.name, true, p.commit, true, p.digest, true⟩
+
+/-- A whole buf.lock: dependencies (`BufLock`, above) and remote plugin keys. -/
+structure BufLockFile where
+  lock : BufLock
+  plugins : List LockPlugin
+  deriving DecidableEq, Repr
+
+/-- `readBufLockFile` after unmarshalling.  The v1beta1/v1 external struct has no `plugins` key
+    (strict unmarshalling rejects the document), so a non-empty plugin list is an error there. -/
+def readLockFile (ver : Ver) (ds : List ExtLockDep) (ps : List ExtLockPlugin) : Option BufLockFile :=
+  if ver ≠ .v2 ∧ ps ≠ [] then none
+  else
+    match readLock ver ds, readLockPlugins ps with
+    | some l, some pl => some ⟨l, pl⟩
+    | _, _ => none
+
+/-- `writeBufLockFile` before marshalling: (deps, plugins); v1beta1/v1 files have no plugins key. -/
+def writeLockFile (f : BufLockFile) : List ExtLockDep × List ExtLockPlugin :=
+  (writeLock f.lock, if f.lock.version = .v2 then writeLockPlugins f.plugins else [])
+
+/-! ### workspace targeting and migration (path level)
+
+  `bufworkspace.getMappedModuleBucketAndModuleTargeting` is ONE function for v1beta1/v1 and v2
+  workspaces: the workspace bucket is mapped on the module directory (`storage.MapOnPrefix`), and
+  for every root of the module config the result is mapped on the root and filtered
+  (`.proto` extension; not contained in an exclude of that root; contained in an include of that
+  root if there are any — includes and excludes are relative to the root).  A file is then known
+  to the module by its root-relative path.  `owners` is that computation for a list of module
+  configs (v1 workspace: one config per buf.work.yaml directory, `dirPath` = the directory;
+  v2 workspace: the modules of the buf.yaml). -/
+
+/-- `storage.MapOnPrefix(d)`: the path below directory `d`, if the path is below it. -/
+def stripPrefix (d f : Key) : Option Key :=
+  if d.isPrefixOf f then some (f.drop d.length) else none
+
+/-- The matchers put on one root bucket (paths relative to the root). -/
+def rootAccepts (includes excludes : List Key) (p : Key) : Bool :=
+  protoExt p && !(excludes.any fun x => x.isPrefixOf p) &&
+    (includes.isEmpty || includes.any fun i => i.isPrefixOf p)
+
+/-- The (module directory, root, root-relative path) triples under which module config `m`
+    knows workspace file `f`. -/
+def ownersOf (m : Module) (f : Key) : List (Key × Key × Key) :=
+  match stripPrefix m.dirPath f with
+  | none => []
+  | some g =>
+    m.roots.filterMap fun r =>
+      match stripPrefix r.root g with
+      | none => none
+      | some p => if rootAccepts r.includes r.excludes p then some (m.dirPath, r.root, p) else none
+
+def owners (ms : List Module) (f : Key) : List (Key × Key × Key) := ms.flatMap (ownersOf · f)
+
+/-- `migrateBuilder.addModule` (path part): every root of a v1beta1/v1 module found at `dirPath`
+    (relative to the destination directory) becomes a v2 module at `dirPath/root` whose only root
+    is "." with the root's includes and excludes unchanged (they are root-relative in both
+    worlds).  A v1beta1 module with several roots loses its name.  `trL` / `trB` stand for
+    `equivalentLintConfigInV2` / `equivalentBreakingConfigInV2` (rule-id translation, not
+    modelled). -/
+def migrateModule (trL : Lint → Lint) (trB : Breaking → Breaking) (m : Module) : List Module :=
+  m.roots.map fun r =>
+    ⟨m.dirPath ++ r.root, if m.roots.length > 1 then [] else m.name,
+      [⟨[], r.includes, r.excludes⟩], trL m.lint, trB m.breaking⟩
+
+def migrateWorkspace (trL : Lint → Lint) (trB : Breaking → Breaking) (ws : List Module) : List Module :=
+  ws.flatMap (migrateModule trL trB)
+
+/-- The buf.yaml v2 the migrator builds (`NewBufYAMLFile(FileVersionV2, moduleConfigs, nil, deps)`). -/
+def migrateFile (trL : Lint → Lint) (trB : Breaking → Breaking) (ws : List Module) (deps : List Dep) :
+    Option BufYAML :=
+  newBufYAML .v2 (migrateWorkspace trL trB ws) [] deps
+
+/-- How a v1 owner triple is named after migration: module `dir/root`, root ".", same path. -/
+def migratedOwner (o : Key × Key × Key) : Key × Key × Key := (o.1 ++ o.2.1, [], o.2.2)
 
 /-! ### strings -> model values -/
 
@@ -674,5 +778,28 @@ def P.render : P → Str
   | .empty => []
   | .bad => ['?']
   | .ok k => renderKey k
+
+/-! ### the written document as the reader meets it again: through strings
+
+  The writers put `normalpath.Join(moduleDirPath, relPath)` — a string — into the external
+  document and the readers call `NormalizeAndValidate` on that string.  On the model's values:
+  a written path `p` becomes the string `p.render` and is read as `normP p.render`.  `mapP`
+  applies a function to every path of an external document. -/
+
+def reparse (p : P) : P := normP p.render
+
+def ExtCheck.mapP (f : P → P) (c : ExtCheck) : ExtCheck :=
+  { c with ignore := c.ignore.map f, ignoreOnly := c.ignoreOnly.map fun e => (e.1, e.2.map f) }
+
+def ExtLint.mapP (f : P → P) (l : ExtLint) : ExtLint := { l with chk := l.chk.mapP f }
+
+def ExtBreaking.mapP (f : P → P) (b : ExtBreaking) : ExtBreaking := { b with chk := b.chk.mapP f }
+
+def ExtModule.mapP (f : P → P) (m : ExtModule) : ExtModule :=
+  { m with path := f m.path, includes := m.includes.map f, excludes := m.excludes.map f,
+           lint := m.lint.mapP f, breaking := m.breaking.mapP f }
+
+def ExtV2.mapP (f : P → P) (e : ExtV2) : ExtV2 :=
+  { e with modules := e.modules.map (·.mapP f), lint := e.lint.mapP f, breaking := e.breaking.mapP f }
 
 end BufModel.Config
